@@ -102,6 +102,11 @@ for _lang in languages:
 SLICING = {"simple", "standard", "standard_nostop", "stemming", "fancy", "keyword", "keyword_commas", "id", "id_lower",
            "regex", "regex_gaps", "space", "charset", "strip", "comma", "charset_tok", "url", "stop_norenumber"} | set("lang_" + l for l in languages)
 NGRAMS = {"ngram", "ngramwords", "ngramwords_start", "ngramwords_end", "ngram_wide", "field"}
+# slicing analyzers without a stemmer / morphological filter
+EXACT = {"simple", "standard", "standard_nostop", "keyword", "id", "id_lower", "regex", "regex_gaps", "space", "charset",
+         "charset_tok", "url", "stop_norenumber"}
+# StripFilter changes the token text but (documentedly) not its offsets
+STRIPPING = {"strip", "keyword_commas", "comma"}
 SYNTHESISING = NGRAMS | {"tee", "compound", "compound_nokeep", "path", "delimited", "biword", "shingle", "metaphone", "intraword_merge", "intraword_multi"}
 
 
@@ -319,6 +324,15 @@ def run(case, out):
                     out.fail("c17.offsets_do_not_delimit_token:%s" % name,
                              {"text": text, "token": t, "slice": src, "slice_tokens": again[:5], "offsets": [sc, ec]})
                     return
+                # "exactly": a character at either end that can be dropped without changing the token is not part
+                # of the token's source text (stemmers may map a shorter word to the same stem: left end only there)
+                if len(src) > 1 and name not in STRIPPING:
+                    ends = [("left", src[1:])] + ([("right", src[:-1])] if name in EXACT else [])
+                    for side, shorter in ends:
+                        if [x[0] for x in toks(ana, shorter, "index", removestops=False)] == [t]:
+                            out.fail("c17.offsets_wider_than_token:%s" % name,
+                                     {"text": text, "token": t, "slice": src, "droppable_end": side, "offsets": [sc, ec]})
+                            return
         # (5) highlights
         if name not in NGRAMS | {"metaphone", "shingle", "biword"}:
             target_terms = [t for t in sorted(set(t[0] for t in itoks)) if t][:3]
